@@ -198,8 +198,16 @@ fn worker(sh: Arc<Sh>, tid: usize, start: Arc<Barrier>, hold_gate: Arc<(AtomicBo
       } else {
         // readers keep overlapping read sections until the writer holds the lock
         let mut mine_after = 0u64;
+        // per scenario: every reader sync, every reader async (only a sustained stream of one kind can starve a
+        // writer through that kind's acquisition path), or a mix
+        let reader_mode = (scn.seed >> 7) % 3;
         while !sh.writer_got.load(Ordering::SeqCst) {
-          let g = if rng.chance(1, 4) { block_on(l.read_async()) } else { l.read() };
+          let asy = match reader_mode {
+            0 => false,
+            1 => true,
+            _ => rng.chance(1, 4),
+          };
+          let g = if asy { block_on(l.read_async()) } else { l.read() };
           occ.enter_sh();
           if sh.writer_called.load(Ordering::SeqCst) && !sh.writer_got.load(Ordering::SeqCst) {
             mine_after += 1;
